@@ -333,6 +333,68 @@ func TestC17(t *testing.T) {
 			}
 			out.emit(tag, "c17", []string{ty.Sexp(), v.Sexp()}, obs)
 		}
+		// series of more than 2^17 elements (one node per element, and packed): the read-only
+		// iterator against what was put in.  The model's per-element lists make these take minutes,
+		// so the statement of the theorems (the iterator yields element i at step i, then End) is
+		// checked on the implementation directly.
+		for _, n := range []int{65537, 131072, 131075, 200001} {
+			if !thorough() && n != 131075 {
+				continue
+			}
+			nn := n
+			out.emit("bigseries", "c17big", []string{"vecroot", hx(uint64(nn))}, guard(func() string {
+				els := make([]view.View, nn)
+				for i := range els {
+					var r tree.Root
+					binary.LittleEndian.PutUint64(r[:8], uint64(i)+1)
+					rv := view.RootView(r)
+					els[i] = &rv
+				}
+				vw, err := view.VectorType(view.RootType, uint64(nn)).(*view.ComplexVectorTypeDef).FromElements(els...)
+				if err != nil {
+					return "agree=ERR"
+				}
+				it := vw.ReadonlyIter()
+				for i := 0; i < nn; i++ {
+					el, ok, err := it.Next()
+					if err != nil || !ok {
+						return "agree=0"
+					}
+					r := el.HashTreeRoot(h)
+					if binary.LittleEndian.Uint64(r[:8]) != uint64(i)+1 {
+						return "agree=0"
+					}
+				}
+				if _, ok, _ := it.Next(); ok {
+					return "agree=0"
+				}
+				return "agree=1"
+			}))
+			out.emit("bigseries", "c17big", []string{"listu64", hx(uint64(4*nn))}, guard(func() string {
+				els := make([]view.BasicView, 4*nn)
+				for i := range els {
+					els[i] = view.Uint64View(uint64(i) + 7)
+				}
+				vw, err := view.BasicListType(view.Uint64Type, 1<<40).FromElements(els...)
+				if err != nil {
+					return "agree=ERR"
+				}
+				it := vw.ReadonlyIter()
+				for i := 0; i < 4*nn; i++ {
+					el, ok, err := it.Next()
+					if err != nil || !ok {
+						return "agree=0"
+					}
+					if x, isU := el.(view.Uint64View); !isU || uint64(x) != uint64(i)+7 {
+						return "agree=0"
+					}
+				}
+				if _, ok, _ := it.Next(); ok {
+					return "agree=0"
+				}
+				return "agree=1"
+			}))
+		}
 		// several read-only bit iterators alive at once over different bitfields (more than one
 		// chunk each), advanced in a random interleaving, opened while earlier ones are still
 		// being polled past their end: each yields what it yields alone
